@@ -384,7 +384,7 @@ let c03 ic =
 
 
 (* ---------------- C12 / C13 / C14: per-thread context, threads ---------------- *)
-let keys = [| "foo"; "bar"; "k0"; "k1"; "a"; "title" |]
+let keys = [| "foo"; "bar"; "k0"; "k1"; "a"; "title"; "fo"; "ti" |]
 let nlist_of_string s = L.init (St.length s) (fun i -> n_of_int (Char.code (St.get s i)))
 
 let step_of toks : Context.step =
@@ -433,35 +433,52 @@ let ctxrun ic =
     | ["END"] | [] -> ()
     | "T" :: tid :: toks0 ->
         let t = int_of_string tid in
-        (* API-level interning = destination request + copy at once: two model steps, one observation *)
-        let parts = (match toks0 with ["AINTERN"; h] -> [(["INTERNDEST"; string_of_int (St.length h / 2)], true); (["INTERNCOPY"; h], false)] | _ -> [(toks0, true)]) in
-        L.iter (fun (toks, show) ->
-        let tn = n_of_int t in
-        let stp = step_of toks in
-        (* model: the shared world, the return area placed as the generated table says *)
-        let c_before = !world.Threads.th tn in
-        let (w', o) = Threads.wstep !w trap !cap g !world tn stp in
-        world := w';
-        if show then Printf.printf "M %d %d %s\n" !id t (show_obs !w false o);
-        (* spec: this thread alone (c14), restarted on a fresh thread at every INIT (c13),
-           ids replaced by the bytes they stand for (c12) *)
-        let sw = match Hashtbl.find_opt solo t with Some x -> x | None -> Threads.w0 !cap in
-        let sw = if !kind = "c13" && (match stp with Context.SInit _ -> true | _ -> false) then Threads.w0 !cap else sw in
-        (match stp with Context.SInit _ -> Hashtbl.replace base t (L.length c_before.Context.cint.Interner.spans) | _ -> ());
-        let shift i = let b = (try Hashtbl.find base t with Not_found -> 0) in let v = int_of_n i - b in n_of_int (if v < 0 then 1000000 else v) in
-        let stp' = if !kind = "c13" then
-          (match stp with
-           | Context.SIStr i -> Context.SIStr (shift i)
-           | Context.SReadIProp (sc, i) -> Context.SReadIProp (sc, shift i)
-           | _ -> stp)
-        else if !kind <> "c12" then stp else
-          (match stp with
-           | Context.SIStr i -> (match Interner.iget c_before.Context.cint i with Some b -> Context.SWrite (Writer.OStr b) | None -> stp)
-           | Context.SReadIProp (sc, i) -> (match Interner.iget c_before.Context.cint i with Some b -> Context.SRead (ReadRun.RProp (sc, b)) | None -> stp)
-           | _ -> stp) in
-        let (sw', so) = Threads.wstep !w trap !cap false sw tn stp' in
-        Hashtbl.replace solo t sw';
-        if show then Printf.printf "S %d %d %s\n" !id t (show_obs !w (!kind = "c13") so)) parts
+        (* one provider-level step on the shared world (model) and on the solo / fresh-thread world (spec): the two observations *)
+        let do_step toks : string * string =
+          let tn = n_of_int t in
+          let stp = step_of toks in
+          (* model: the shared world, the return area placed as the generated table says *)
+          let c_before = !world.Threads.th tn in
+          let (w', o) = Threads.wstep !w trap !cap g !world tn stp in
+          world := w';
+          let mo = show_obs !w false o in
+          (* spec: this thread alone (c14), restarted on a fresh thread at every INIT (c13),
+             ids replaced by the bytes they stand for (c12) *)
+          let sw = match Hashtbl.find_opt solo t with Some x -> x | None -> Threads.w0 !cap in
+          let sw = if !kind = "c13" && (match stp with Context.SInit _ -> true | _ -> false) then Threads.w0 !cap else sw in
+          (match stp with Context.SInit _ -> Hashtbl.replace base t (L.length c_before.Context.cint.Interner.spans) | _ -> ());
+          let shift i = let b = (try Hashtbl.find base t with Not_found -> 0) in let v = int_of_n i - b in n_of_int (if v < 0 then 1000000 else v) in
+          let stp' = if !kind = "c13" then
+            (match stp with
+             | Context.SIStr i -> Context.SIStr (shift i)
+             | Context.SReadIProp (sc, i) -> Context.SReadIProp (sc, shift i)
+             | _ -> stp)
+          else if !kind <> "c12" then stp else
+            (match stp with
+             | Context.SIStr i -> (match Interner.iget c_before.Context.cint i with Some b -> Context.SWrite (Writer.OStr b) | None -> stp)
+             | Context.SReadIProp (sc, i) -> (match Interner.iget c_before.Context.cint i with Some b -> Context.SRead (ReadRun.RProp (sc, b)) | None -> stp)
+             | _ -> stp) in
+          let (sw', so) = Threads.wstep !w trap !cap false sw tn stp' in
+          Hashtbl.replace solo t sw';
+          (mo, show_obs !w (!kind = "c13") so) in
+        let emit (mo, so) = Printf.printf "M %d %d %s\n" !id t mo; Printf.printf "S %d %d %s\n" !id t so in
+        (match toks0 with
+         | ["AINTERN"; h] ->
+             (* API-level interning = destination request + copy at once: two model steps, one observation *)
+             let r = do_step ["INTERNDEST"; string_of_int (St.length h / 2)] in
+             ignore (do_step ["INTERNCOPY"; h]); emit r
+         | ["ANEST"; d; bad] ->
+             (* api::Context::write_array closures nested d deep around one i32 (bad: a second i32 into the full innermost
+                container): each provider call in order, stopping at the first rejection (the closures return early) *)
+             let d = int_of_string d in
+             let steps = L.init d (fun _ -> ["W"; "SARR"; "1"]) @ [["W"; "I32"; "7"]] @ (if bad = "1" then [["W"; "I32"; "8"]] else []) @ L.init d (fun _ -> ["W"; "FARR"]) in
+             let rec go l last = (match l with
+               | [] -> last
+               | st :: rest -> let (mo, so) = do_step st in
+                   (* a rejected call ends the model's AND the spec's sequence at the model's verdict (they agree unless the property fails) *)
+                   if mo <> "ST 0" then (mo, so) else go rest (mo, so)) in
+             emit (go steps ("ST 0", "ST 0"))
+         | _ -> emit (do_step toks0))
     | _ -> failwith ("ctx: bad line " ^ line)
   done with End_of_file -> ())
 
@@ -675,8 +692,10 @@ let c07 ic =
   let vt = function "i32" -> AbiTypes.TI32 | "i64" -> AbiTypes.TI64 | "f32" -> AbiTypes.TF32 | "f64" -> AbiTypes.TF64 | x -> failwith ("c07: type " ^ x) in
   let tv = function AbiTypes.TI32 -> "i32" | AbiTypes.TI64 -> "i64" | AbiTypes.TF32 -> "f32" | AbiTypes.TF64 -> "f64" in
   let tys s = if s = "" then [] else L.map vt (St.split_on_char ',' s) in
-  let id = ref 0 and imps = ref [] and own = ref 0 and locals = ref 0 in
+  let id = ref 0 and imps = ref [] and own = ref 0 and locals = ref 0 and cls = ref "" in
   let flush () =
+    (* a 64-bit own memory is outside the abstract module of the model: the tool may refuse such a guest or accept it with a valid result *)
+    if !cls = "mem64" then (Printf.printf "M %d NOMODEL\n" !id; Printf.printf "S %d EITHER PREFIX=-\n" !id) else
     (* ids as walrus assigns them: imported functions / memories in import order, then the defined ones *)
     let nf = ref 0 and nm = ref 0 in
     let funcs = ref [] and mems = ref [] in
@@ -710,7 +729,7 @@ let c07 ic =
   (try while true do
     let line = input_line ic in
     match split line with
-    | "CASE" :: k :: _ -> id := int_of_string k; imps := []; own := 0; locals := 0
+    | "CASE" :: k :: rest -> id := int_of_string k; imps := []; own := 0; locals := 0; cls := (match rest with c :: _ -> c | [] -> "")
     | ["IMP"; t] ->
         (match St.split_on_char '/' t with
          | [m; n; k] ->
